@@ -136,6 +136,8 @@ func TestVerif(t *testing.T) {
 		familySched(t)
 	case "discovery-real":
 		familyDiscoveryReal(t)
+	case "token-real":
+		familyTokenReal(t)
 	default:
 		t.Fatalf("unknown VERIF_FAMILY %q", fam)
 	}
